@@ -585,9 +585,11 @@ impl FormatSpec {
             Some(FormatType::Character) => match (self.sign, self.alternate_form) {
                 (Some(_), _) => Err(FormatSpecError::NotAllowed("Sign")),
                 (_, true) => Err(FormatSpecError::NotAllowed("Alternate form (#)")),
-                (_, _) => match num.to_u32() {
-                    Some(n) if n <= 0x10ffff => Ok(std::char::from_u32(n).unwrap().to_string()),
-                    Some(_) | None => Err(FormatSpecError::CodeNotInRange),
+                (_, _) if self.precision.is_some() => Err(FormatSpecError::PrecisionNotAllowed),
+                // a surrogate code point has no `char`: reject instead of panicking
+                (_, _) => match num.to_u32().and_then(std::char::from_u32) {
+                    Some(c) => Ok(c.to_string()),
+                    None => Err(FormatSpecError::CodeNotInRange),
                 },
             },
             Some(FormatType::GeneralFormat(_))
@@ -737,7 +739,8 @@ impl<'a> AsciiStr<'a> {
 
 impl CharLen for AsciiStr<'_> {
     fn char_len(&self) -> usize {
-        self.inner.len()
+        // the `c` presentation type can produce a non-ASCII character
+        self.inner.chars().count()
     }
 }
 
